@@ -24,7 +24,11 @@ type greg struct {
 	j secp256k1.XYZ
 	m refsecp.Point
 }
-type gstate [2]greg
+type gstate struct {
+	r  [2]greg
+	xy secp256k1.XY  // one affine register: destination of SetXYZ, receiver of XY.AddXY / XY.Neg
+	xm refsecp.Point // the point it denotes
+}
 
 type poolPoint struct {
 	name string
@@ -40,9 +44,15 @@ const (
 	gNeg
 	gSetXYZ
 	gMulLambda
+	gXLoad   // xy = pool point
+	gXSetXYZ // xy.SetXYZ(&j): the affine register is OVERWRITTEN, whatever it held
+	gXAddXY  // xy.AddXY(pool point): xy = xy + point
+	gXNeg    // xy.Neg(&xy)
+	gJSetX   // j.SetXY(&xy)
+	gJAddX   // j.AddXY(&jd, &xy)
 )
 
-var gkindName = []string{"SetXY", "Double", "Add", "AddXY", "Neg", "SetXYZ", "mul_lambda"}
+var gkindName = []string{"SetXY", "Double", "Add", "AddXY", "Neg", "SetXYZ", "mul_lambda", "XY.load", "XY.SetXYZ", "XY.AddXY", "XY.Neg", "SetXY(xy)", "AddXY(xy)"}
 
 type gop struct {
 	kind      int
@@ -136,6 +146,19 @@ func newGroupMachine() *groupMachine {
 		}
 		add(gop{kind: gSetXYZ, dst: d, a: d}, fmt.Sprintf("xy.SetXYZ(&j%d)", d))
 	}
+	// the affine register
+	for _, pp := range m.pool {
+		add(gop{kind: gXLoad, pp: pp}, fmt.Sprintf("xy = %s", pp.name))
+		add(gop{kind: gXAddXY, pp: pp}, fmt.Sprintf("xy.AddXY(%s)", pp.name))
+	}
+	add(gop{kind: gXNeg}, "xy.Neg(&xy)")
+	for d := 0; d < 2; d++ {
+		add(gop{kind: gXSetXYZ, a: d, dst: d}, fmt.Sprintf("xy.SetXYZ(&j%d) [xy kept]", d))
+		add(gop{kind: gJSetX, dst: d}, fmt.Sprintf("j%d.SetXY(&xy)", d))
+		for a := 0; a < 2; a++ {
+			add(gop{kind: gJAddX, dst: d, a: a}, fmt.Sprintf("j%d.AddXY(&j%d, &xy)", a, d))
+		}
+	}
 	if len(m.ops) > 255 {
 		panic("group alphabet does not fit a byte")
 	}
@@ -144,10 +167,12 @@ func newGroupMachine() *groupMachine {
 
 func (m *groupMachine) init() gstate {
 	var s gstate
-	for i := range s {
-		s[i].j.Infinity = true
-		s[i].m = refsecp.Infinity()
+	for i := range s.r {
+		s.r[i].j.Infinity = true
+		s.r[i].m = refsecp.Infinity()
 	}
+	s.xy.Infinity = true
+	s.xm = refsecp.Infinity()
 	return s
 }
 
@@ -217,36 +242,49 @@ func mulLambdaModel(p refsecp.Point) refsecp.Point {
 func (m *groupMachine) apply(s *gstate, oi int) (ns gstate, key, what string) {
 	o := &m.ops[oi]
 	ns = *s
-	d := &ns[o.dst]
+	if o.kind >= gXLoad && o.kind <= gXNeg {
+		return m.applyAffine(s, ns, o, oi)
+	}
+	d := &ns.r[o.dst]
 	var want refsecp.Point
 	switch o.kind {
+	case gJSetX:
+		want = ns.xm
+		xy := ns.xy
+		d.j.SetXY(&xy)
+	case gJAddX:
+		want = refsecp.Add(ns.r[o.a].m, ns.xm)
+		ns.r[o.a].j.AddXY(&ns.r[o.dst].j, &ns.xy)
+		if why := m.checkAffine(&ns, "its affine operand"); why != "" {
+			return ns, "group/AddXY-clobbers-operand", m.names[oi] + ": " + why
+		}
 	case gLoad:
 		want = o.pp.m
 		xy := o.pp.xy
 		d.j.SetXY(&xy)
 	case gDouble:
-		want = refsecp.Double(ns[o.a].m)
-		ns[o.a].j.Double(&ns[o.dst].j)
+		want = refsecp.Double(ns.r[o.a].m)
+		ns.r[o.a].j.Double(&ns.r[o.dst].j)
 	case gNeg:
-		want = refsecp.Neg(ns[o.a].m)
-		ns[o.a].j.Neg(&ns[o.dst].j)
+		want = refsecp.Neg(ns.r[o.a].m)
+		ns.r[o.a].j.Neg(&ns.r[o.dst].j)
 	case gMulLambda:
-		want = mulLambdaModel(ns[o.a].m)
-		ns[o.a].j.VerifMulLambda(&ns[o.dst].j)
+		want = mulLambdaModel(ns.r[o.a].m)
+		ns.r[o.a].j.VerifMulLambda(&ns.r[o.dst].j)
 	case gAdd:
-		want = refsecp.Add(ns[o.a].m, ns[o.b].m)
-		ns[o.a].j.Add(&ns[o.dst].j, &ns[o.b].j)
+		want = refsecp.Add(ns.r[o.a].m, ns.r[o.b].m)
+		ns.r[o.a].j.Add(&ns.r[o.dst].j, &ns.r[o.b].j)
 	case gAddXY:
-		want = refsecp.Add(ns[o.a].m, o.pp.m)
+		want = refsecp.Add(ns.r[o.a].m, o.pp.m)
 		xy := o.pp.xy
-		ns[o.a].j.AddXY(&ns[o.dst].j, &xy)
+		ns.r[o.a].j.AddXY(&ns.r[o.dst].j, &xy)
 		if !xy.X.Equals(&o.pp.xy.X) || !xy.Y.Equals(&o.pp.xy.Y) || xy.Infinity != o.pp.xy.Infinity {
 			return ns, "group/AddXY-clobbers-operand", m.names[oi] + " modified its affine operand"
 		}
 	case gSetXYZ:
-		want = ns[o.a].m
+		want = ns.r[o.a].m
 		var xy secp256k1.XY
-		xy.SetXYZ(&ns[o.a].j) // rewrites its argument to Z = 1
+		xy.SetXYZ(&ns.r[o.a].j) // rewrites its argument to Z = 1
 		if xy.Infinity != want.Inf {
 			return ns, "group/SetXYZ-wrong-result", fmt.Sprintf("%s: Infinity=%v, expected %s", m.names[oi], xy.Infinity, ptStr(want))
 		}
@@ -267,13 +305,13 @@ func (m *groupMachine) apply(s *gstate, oi int) (ns gstate, key, what string) {
 	}
 	// operands other than the destination still denote the same point (they may be
 	// re-normalised in place, so the denoted point is compared when the limbs changed)
-	for j := range ns {
+	for j := range ns.r {
 		if j == o.dst {
 			continue
 		}
-		if ns[j].j.Infinity != s[j].j.Infinity || !ns[j].j.X.Equals(&s[j].j.X) || !ns[j].j.Y.Equals(&s[j].j.Y) || !ns[j].j.Z.Equals(&s[j].j.Z) {
-			if p, bad := affineOf(&ns[j].j); bad != "" || !refsecp.Equal(p, ns[j].m) {
-				return ns, "group/" + gkindName[o.kind] + "-clobbers-operand", fmt.Sprintf("%s changed register j%d, which now denotes %s instead of %s", m.names[oi], j, ptStr(p), ptStr(ns[j].m))
+		if ns.r[j].j.Infinity != s.r[j].j.Infinity || !ns.r[j].j.X.Equals(&s.r[j].j.X) || !ns.r[j].j.Y.Equals(&s.r[j].j.Y) || !ns.r[j].j.Z.Equals(&s.r[j].j.Z) {
+			if p, bad := affineOf(&ns.r[j].j); bad != "" || !refsecp.Equal(p, ns.r[j].m) {
+				return ns, "group/" + gkindName[o.kind] + "-clobbers-operand", fmt.Sprintf("%s changed register j%d, which now denotes %s instead of %s", m.names[oi], j, ptStr(p), ptStr(ns.r[j].m))
 			}
 		}
 	}
@@ -286,28 +324,79 @@ func (m *groupMachine) apply(s *gstate, oi int) (ns gstate, key, what string) {
 	return ns, "", ""
 }
 
+// checkAffine: the affine register denotes its model point, flag included
+func (m *groupMachine) checkAffine(ns *gstate, what string) string {
+	if ns.xy.Infinity != ns.xm.Inf {
+		return fmt.Sprintf("%s has Infinity=%v, it should denote %s", what, ns.xy.Infinity, ptStr(ns.xm))
+	}
+	if !ns.xm.Inf {
+		got := refsecp.Point{X: fieldBig(&ns.xy.X), Y: fieldBig(&ns.xy.Y)}
+		if !refsecp.Equal(got, ns.xm) {
+			return fmt.Sprintf("%s denotes %s, it should denote %s", what, ptStr(got), ptStr(ns.xm))
+		}
+	}
+	return ""
+}
+
+func (m *groupMachine) applyAffine(s *gstate, ns gstate, o *gop, oi int) (gstate, string, string) {
+	before := ptStr(ns.xm)
+	switch o.kind {
+	case gXLoad:
+		ns.xy = o.pp.xy
+		ns.xm = o.pp.m
+	case gXSetXYZ:
+		ns.xm = ns.r[o.a].m
+		ns.xy.SetXYZ(&ns.r[o.a].j) // rewrites its argument to Z = 1 (same point)
+		if p, bad := affineOf(&ns.r[o.a].j); !ns.xm.Inf && (bad != "" || !refsecp.Equal(p, ns.r[o.a].m)) {
+			return ns, "group/XY.SetXYZ-clobbers-operand", fmt.Sprintf("%s: the Jacobian argument now denotes %s%s instead of %s", m.names[oi], ptStr(p), bad, ptStr(ns.r[o.a].m))
+		}
+	case gXAddXY:
+		ns.xm = refsecp.Add(ns.xm, o.pp.m)
+		b := o.pp.xy
+		ns.xy.AddXY(&b)
+	case gXNeg:
+		ns.xm = refsecp.Neg(ns.xm)
+		ns.xy.Neg(&ns.xy)
+	}
+	if why := m.checkAffine(&ns, "the affine register"); why != "" {
+		return ns, "group/" + gkindName[o.kind] + "-wrong-result", fmt.Sprintf("%s (xy held %s before): %s", m.names[oi], before, why)
+	}
+	if ns.xy.IsValid() != !ns.xm.Inf {
+		return ns, "group/XY.IsValid-wrong", fmt.Sprintf("after %s: XY.IsValid() = %v for %s", m.names[oi], ns.xy.IsValid(), ptStr(ns.xm))
+	}
+	for j := range ns.r {
+		if o.kind == gXSetXYZ && j == o.a {
+			continue
+		}
+		if p, bad := affineOf(&ns.r[j].j); bad != "" || !refsecp.Equal(p, ns.r[j].m) {
+			return ns, "group/" + gkindName[o.kind] + "-clobbers-operand", fmt.Sprintf("%s changed register j%d", m.names[oi], j)
+		}
+	}
+	return ns, "", ""
+}
+
 func operandsStr(s *gstate, o *gop) string {
 	switch o.kind {
 	case gAdd:
-		return ptStr(s[o.a].m) + " + " + ptStr(s[o.b].m)
+		return ptStr(s.r[o.a].m) + " + " + ptStr(s.r[o.b].m)
 	case gAddXY:
-		return ptStr(s[o.a].m) + " + " + ptStr(o.pp.m)
+		return ptStr(s.r[o.a].m) + " + " + ptStr(o.pp.m)
 	case gLoad:
 		return o.pp.name
 	}
-	return ptStr(s[o.a].m)
+	return ptStr(s.r[o.a].m)
 }
 
 func (m *groupMachine) digest(s *gstate) [16]byte {
 	var parts [2][]byte
-	for i := range s {
+	for i := range s.r {
 		var b []byte
-		for _, f := range []*secp256k1.Field{&s[i].j.X, &s[i].j.Y, &s[i].j.Z} {
+		for _, f := range []*secp256k1.Field{&s.r[i].j.X, &s.r[i].j.Y, &s.r[i].j.Z} {
 			for _, l := range f.VerifLimbs() {
 				b = binary.BigEndian.AppendUint64(b, l)
 			}
 		}
-		if s[i].j.Infinity {
+		if s.r[i].j.Infinity {
 			b = append(b, 1)
 		} else {
 			b = append(b, 0)
@@ -318,6 +407,16 @@ func (m *groupMachine) digest(s *gstate) [16]byte {
 	h := sha256.New()
 	h.Write(parts[0])
 	h.Write(parts[1])
+	for _, f := range []*secp256k1.Field{&s.xy.X, &s.xy.Y} {
+		for _, l := range f.VerifLimbs() {
+			h.Write(binary.BigEndian.AppendUint64(nil, l))
+		}
+	}
+	if s.xy.Infinity {
+		h.Write([]byte{1})
+	} else {
+		h.Write([]byte{0})
+	}
 	var out [16]byte
 	copy(out[:], h.Sum(nil))
 	return out
